@@ -177,13 +177,17 @@ Record Quirks := {
   q_where_err_capture_race : bool;        (* rel/value_set_generic.go GenericSet.Where and
                                              rel/value_set_relpos.go positionalRelation.Where:
                                              the captured `err` is read and written by parallel callbacks *)
-  q_importcache_error_no_broadcast : bool (* pkg/importcache/import_cache.go getOrAdd: the deferred
+  q_importcache_error_no_broadcast : bool;(* pkg/importcache/import_cache.go getOrAdd: the deferred
                                              cleanup after a failed add() deletes the marker without Broadcast *)
+  q_join_attrs_append_alias : bool        (* rel/value_set_rel.go Relation.Join: append(leftOutput, rightOutput...)
+                                             where leftOutput is the shared relation's own attrs slice: with spare
+                                             capacity every join writes the same backing-array slot *)
 }.
-Definition quirks_off := {| q_where_err_capture_race := false; q_importcache_error_no_broadcast := false |}.
-Definition quirks_cur := {| q_where_err_capture_race := true; q_importcache_error_no_broadcast := true |}.
-Definition only_where := {| q_where_err_capture_race := true; q_importcache_error_no_broadcast := false |}.
-Definition only_import := {| q_where_err_capture_race := false; q_importcache_error_no_broadcast := true |}.
+Definition quirks_off := {| q_where_err_capture_race := false; q_importcache_error_no_broadcast := false; q_join_attrs_append_alias := false |}.
+Definition quirks_cur := {| q_where_err_capture_race := true; q_importcache_error_no_broadcast := true; q_join_attrs_append_alias := true |}.
+Definition only_where := {| q_where_err_capture_race := true; q_importcache_error_no_broadcast := false; q_join_attrs_append_alias := false |}.
+Definition only_import := {| q_where_err_capture_race := false; q_importcache_error_no_broadcast := true; q_join_attrs_append_alias := false |}.
+Definition only_join := {| q_where_err_capture_race := false; q_importcache_error_no_broadcast := false; q_join_attrs_append_alias := true |}.
 
 Definition const (v : Z) : Z -> Z := fun _ => v.
 Definition isZero (z : Z) : bool := Z.eqb z 0.
@@ -348,12 +352,31 @@ Section Import.
 End Import.
 
 (* ------------------------------------------------------------------ *)
+(* P5. Relation.Join building the result heading (rel/value_set_rel.go):
+     attrs := append(leftOutput, rightOutput...)
+   For `<&>` leftOutput is r1.attrs itself (ops_rel.go `join`), a slice whose
+   backing array is shared by every use of the relation.  cell 0 = the first
+   spare slot of that array.  Quirk on: the append writes it (thread t joins
+   with an operand contributing attribute name nm t).  Quirk off (repair):
+   the heading is built in a fresh array, which is no shared access at all. *)
+Section JoinAttrs.
+  Variable q : Quirks.
+  Variable nm : tid -> Z.
+  Definition p_join (t : tid) : list instr :=
+    [ Compute 1 (const (nm t)) 0;
+      (if q_join_attrs_append_alias q then Write 0 1 else Nop);   (* attrs := append(leftOutput, rightOutput...) *)
+      Compute 0 (const (nm t)) 1;                                 (* the heading this join returns *)
+      Halt ].
+End JoinAttrs.
+
+(* ------------------------------------------------------------------ *)
 (* The verdict of the model per protocol, compared with the race detector. *)
-Inductive proto := PTupleNames | PTupleBucket | POnceCell | PRelposIndex | PWhereErr | PImportCache
+Inductive proto := PTupleNames | PTupleBucket | POnceCell | PRelposIndex | PWhereErr | PImportCache | PJoinAttrs
                  | MTupleNoOnce | MRelposUnlockedRead.
 Definition model_racy (q : Quirks) (p : proto) : bool :=
   match p with
   | PWhereErr => q_where_err_capture_race q
+  | PJoinAttrs => q_join_attrs_append_alias q
   | MTupleNoOnce | MRelposUnlockedRead => true
   | _ => false
   end.
